@@ -426,6 +426,8 @@ def _run_task_symbolic(modname, params, opts, t0):
                  max_paths=opts.get("max_paths", 20000), nonlinear=getattr(mod, "NONLINEAR", "nra"),
                  max_task_s=opts.get("max_task_s"),
                  logic=getattr(mod, "LOGIC", None))
+    if opts.get("dump_dir"):
+        eng.dump_dir, eng.dump_limit = opts["dump_dir"], opts.get("dump_limit", 4)
     inp = SymInputs(eng)
     lg, lgs = SymLogic(0), SymLogic(SLACK)
     from symx import engine as _e
